@@ -20,7 +20,7 @@ func TestC06(t *testing.T) {
 	w.Rule = "append/delete/restart histories (3..14 ops) over a 16-header chain on a recording datastore whose log has one entry per direct " +
 		"write and per batch commit; clean Restart/Reopen steps inside the history; then for write-log prefixes k (quick: 10 random per history, " +
 		"thorough: all) the image of the first k entries is reopened by a fresh Store: Start result, full probe, append of the chain continuation, " +
-		"full probe. The recorded log is also compared entry by entry with the model's log. distinct by (config, ops); non-trivial when the log " +
+		"full probe. The recorded log is also compared entry by entry with the model's log. A third of the histories run with N in {1,2,5} consecutive failing flush commits (transient write failures, retried by the flush loop); restarts include Stop racing a concurrent Sync and Stop directly after Append. distinct by (config, ops); non-trivial when the log " +
 		"has >= 4 entries"
 	n, crash := 36, 10
 	if emit.Thorough() {
@@ -33,6 +33,8 @@ func TestC06(t *testing.T) {
 		w.Count("log_len", fmt.Sprint(res.LogLen/10*10))
 		w.Count("crash_points", fmt.Sprint(res.CrashPts/10*10))
 		w.Count("batch", fmt.Sprint(cfg.Batch))
+		w.Count("injected_commit_failures", fmt.Sprint(res.CommitFailures))
+		w.Count("appends_not_followed_by_quiescence", fmt.Sprint(res.Rushed))
 	}
 	for _, cc := range storeh.Corpus {
 		cfg := storeh.Config{Batch: cc.Batch, Cache: 4, ICache: 4, U: 16, NH: 0, ProbeEvery: false, Ranges: 0, Crash: -1}
@@ -41,9 +43,18 @@ func TestC06(t *testing.T) {
 	// F11 witness (open known finding): crash inside a head-side DeleteRange
 	run(storeh.Config{Batch: 4, Cache: 4, ICache: 4, U: 16, Crash: -1},
 		2, storeh.Scripted([]storeh.Op{storeh.A(1, 2, 3, 4, 5, 6, 7, 8, 9, 10), storeh.D(5, 11)}), "corpus/F11-head-delete-crash")
+	// clean Stop racing a Sync while a batch is in flight (the loop's choice between the sync request and
+	// the queued stop signal is random: several rounds)
+	for i := 0; i < 8; i++ {
+		ops := []storeh.Op{storeh.A(1, 2, 3), {Kind: storeh.StopSync, Heights: []uint64{4, 5}}, storeh.A(6), {Kind: storeh.StopSync, Heights: []uint64{7}}}
+		run(storeh.Config{Batch: []int{64, 5}[i%2], Cache: 4, ICache: 4, U: 16, Crash: 4}, len(ops), storeh.Scripted(ops), fmt.Sprintf("stopsync/%d/", i))
+	}
 	for i := 0; i < n; i++ {
 		cfg := storeh.Config{Batch: []int{1, 2, 3, 5, 64}[rng.Intn(5)], Cache: []int{4, 8, 512}[rng.Intn(3)], ICache: []int{4, 2048}[rng.Intn(2)],
 			U: 16, NH: 0, ProbeEvery: false, Ranges: 0, Crash: crash}
+		if i%3 == 0 { // transient datastore write failures: N consecutive failing flush commits
+			cfg.FailHdrFrom, cfg.FailHdrN = rng.Intn(4), []int{1, 2, 5}[rng.Intn(3)]
+		}
 		gen := storeh.RandomGen(rng, cfg, storeh.Weights{Append: 62, Delete: 23, Restart: 15, InvalidDelete: 15})
 		run(cfg, 3+rng.Intn(12), gen, "rand/")
 	}
